@@ -339,7 +339,7 @@ func mixCases(prop string) []Case {
 	// deep nesting
 	add([]string{sendFixed("USD", "{ 1/2 from { max %C from { @a @b } @c } remaining from @a }", "@d")}, nil)
 	add([]string{sendFixed("USD", "max %C from { @a allowing overdraft up to %K max %C from { @b @a } }", "{ max %C to { 1/2 to @d 1/2 kept } remaining to @e }")}, nil)
-	add([]string{sendAll("USD", "{ max %C from { @a @b } @a }", "{ 1/2 to { max %C to @d remaining kept } 1/2 to { 1/2 to @e 1/2 to @d } }")}, nil)
+	add([]string{sendAll("USD", "{ max %C from { @a @b } @a }", "{ 1/2 to { max %C to @d remaining kept } 1/2 to @e }")}, nil)
 	// a second asset next to the first
 	add([]string{sendFixed("USD", "{ @a @b }", "@d"), "send [EUR/2 *] (\n  source = { @a @d }\n  destination = { 1/2 to @b 1/2 kept }\n)", sendAll("USD", "@d", "@a")}, nil)
 	// an account credited in one asset before it is debited in another one
